@@ -45,8 +45,9 @@ fn extract_bracket_expr(pattern: &str) -> Option<(String, &str)> {
     //
     //     3. A non-matching list expression begins with a <circumflex> ( '^' ) ...
     //
-    // (but in a glob, '!' is used instead of '^')
-    if next == Some('!') {
+    // (in a glob '!' is used instead; a leading '^' is unspecified and, as in
+    // every fnmatch() in use, negates too)
+    if matches!(next, Some('!' | '^')) {
         expr.push('^');
         next = chars.next();
     }
@@ -61,9 +62,9 @@ fn extract_bracket_expr(pattern: &str) -> Option<(String, &str)> {
         next = chars.next();
     }
 
-    while let Some(ch) = next {
-        expr.push(ch);
+    let mut closed = false;
 
+    while let Some(ch) = next {
         match ch {
             '[' => {
                 // https://pubs.opengroup.org/onlinepubs/9699919799/basedefs/V1_chap09.html#tag_09_03_05
@@ -80,24 +81,41 @@ fn extract_bracket_expr(pattern: &str) -> Option<(String, &str)> {
                 // Only "[.", "[=" and "[:" open a sub-expression; any other character
                 // after '[' (in particular ']') is examined by the next iteration.
                 let mut lookahead = chars.clone();
-                if let Some(delim) = lookahead.next() {
-                    if matches!(delim, '.' | '=' | ':') {
+                match lookahead.next() {
+                    Some(delim @ ('.' | '=' | ':')) => {
+                        // The sub-expression runs up to its own ".]", "=]" or ":]"; without
+                        // one, or with something else than a class name between the
+                        // colons, there is no bracket expression at all.
                         let rest = lookahead.as_str();
-                        let end = rest.find([delim, ']'])? + 2;
-                        // An unterminated class name makes the whole bracket invalid.
-                        let body = rest.get(..end)?;
-                        if delim == ':' && body == "punct:]" {
-                            // The engine's [:punct:] is the Unicode punctuation category;
-                            // POSIX means the 32 ASCII characters that are neither
-                            // alphanumeric nor blank, symbols like $ + < = > ^ ` | ~ included.
-                            expr.pop();
-                            expr.push_str("!-/:-@[-`{-~");
+                        let end = rest.find(&format!("{delim}]"))?;
+                        let body = &rest[..end];
+                        if delim == ':' {
+                            match body {
+                                // The engine's [:punct:] and [:digit:] are Unicode categories;
+                                // POSIX means the 32 ASCII characters that are neither
+                                // alphanumeric nor blank (symbols like $ + < = > ^ ` | ~
+                                // included) and the ten digits 0-9.
+                                "punct" => expr.push_str("!-/:-@[-`{-~"),
+                                "digit" => expr.push_str("0-9"),
+                                "alpha" | "alnum" | "upper" | "lower" | "space" | "blank"
+                                | "print" | "graph" | "cntrl" | "xdigit" => {
+                                    expr.push_str("[:");
+                                    expr.push_str(body);
+                                    expr.push_str(":]");
+                                }
+                                _ => return None,
+                            }
                         } else {
+                            // (collating symbols and equivalence classes are left to the engine)
+                            expr.push(ch);
                             expr.push(delim);
                             expr.push_str(body);
+                            expr.push(delim);
+                            expr.push(']');
                         }
-                        chars = rest[end..].chars();
+                        chars = rest[end + 2..].chars();
                     }
+                    _ => expr.push(ch),
                 }
             }
             ']' => {
@@ -107,15 +125,17 @@ fn extract_bracket_expr(pattern: &str) -> Option<(String, &str)> {
                 //        expression, unless it appears in a collating symbol (such as "[.].]" ) or is
                 //        the ending <right-square-bracket> for a collating symbol, equivalence class,
                 //        or character class.
+                expr.push(ch);
+                closed = true;
                 break;
             }
-            _ => {}
+            _ => expr.push(ch),
         }
 
         next = chars.next();
     }
 
-    if parse_bre(&expr, RegexOptions::REGEX_OPTION_NONE).is_ok() {
+    if closed && parse_bre(&expr, RegexOptions::REGEX_OPTION_NONE).is_ok() {
         Some((expr, chars.as_str()))
     } else {
         None
